@@ -259,6 +259,7 @@ def check(tier, seed):
         c.extra["corpus_cases"] = len(cases)
         cases += gen_cases(c.rng, tier)
         io = lib.run_lines([exe], cases)
+        lib.config_differential(c, "c14", ["c14.cpp"], cases, io, judge=judge, libs=LIBS, limit=400)
         mcases = []
         for cs, o in zip(cases, io):
             kind, n, es = parse_case(cs)
